@@ -476,7 +476,7 @@ func judgeDomSep(rec *ev.Rec, seed, msg []byte, p, q ref.Variant, eseed int64) b
 	if !want {
 		rel = "foreign"
 	}
-	rec.Eval("domsep/"+gen.VariantName(p)+"->"+gen.VariantName(q)+"/"+rel)
+	rec.Eval("domsep/" + gen.VariantName(p) + "->" + gen.VariantName(q) + "/" + rel)
 	rec.Nontrivial(seed, msg, []byte(descVariant(p)), []byte(descVariant(q)))
 	if bad != "" {
 		rec.Violate("domain-separation", bad, "domsep/"+gen.VariantName(p)+"->"+gen.VariantName(q), c)
@@ -524,12 +524,12 @@ func foreignPairs(rng *rand.Rand, p ref.Variant, msgIs64 bool) []ref.Variant {
 	if len(c) > 0 {
 		f := append([]byte(nil), c...)
 		f[rng.Intn(len(f))] ^= 1 << uint(rng.Intn(8))
-		add(ref.Variant{Ph: p.Ph, Ctx: f})                                  // one-bit flip
+		add(ref.Variant{Ph: p.Ph, Ctx: f})                                    // one-bit flip
 		add(ref.Variant{Ph: p.Ph, Ctx: append([]byte(nil), c[:len(c)-1]...)}) // minus last byte
-		add(ref.Variant{Ph: !p.Ph, Ctx: c})                                 // same bytes, other variant
+		add(ref.Variant{Ph: !p.Ph, Ctx: c})                                   // same bytes, other variant
 	}
 	add(ref.Variant{Ph: p.Ph && !p.Pure, Ctx: append(append([]byte(nil), c...), 0)}) // c || 0x00
-	add(ref.Variant{Ph: true})                                                        // ph with empty context
+	add(ref.Variant{Ph: true})                                                       // ph with empty context
 	add(ref.Variant{Ph: true, Ctx: gen.RandBytes(rng, 1+rng.Intn(255))})
 	add(ref.Variant{Ctx: gen.RandBytes(rng, 1+rng.Intn(255))})
 	if p.Pure {
